@@ -13,6 +13,7 @@ import (
 	"fmt"
 	"math"
 	"os"
+	"strings"
 	"sync"
 	"sync/atomic"
 	"time"
@@ -288,6 +289,25 @@ func checkSet56x(text string) *failure {
 	}
 	if s := set.String(); s != want {
 		return &failure{"set56:text-roundtrip", fmt.Sprintf("set parsed from canonical text %q prints %q", want, s)}
+	}
+	// the server prints a set of several servers with a line break behind each
+	// comma (gtid_executed, SHOW MASTER STATUS, mysqldump); clients paste it with
+	// blanks: the same set all the same
+	for _, sep := range []string{",\n", ", ", ",\r\n", ",\t", " ,\n "} {
+		if !strings.Contains(want, ",") && sep != ",\n" {
+			continue
+		}
+		text := strings.ReplaceAll(want, ",", sep)
+		if sep == ",\n" {
+			text = text + "\n"
+		}
+		alt, perr := parseSet(fl56, text)
+		if perr != "" {
+			return &failure{"set56:text-roundtrip", fmt.Sprintf("the set %q written with %q between the servers: %s", want, sep, perr)}
+		}
+		if !alt.Equal(set) || !set.Equal(alt) || alt.String() != want {
+			return &failure{"set56:text-roundtrip", fmt.Sprintf("the set %q written with %q between the servers parses to %q", want, sep, alt.String())}
+		}
 	}
 	again, perr := parseSet(fl56, set.String())
 	if perr != "" || !again.Equal(set) || !set.Equal(again) || again.String() != want {
@@ -814,7 +834,12 @@ func run(r *chk.Run) {
 
 	phase("ev-gtid56")
 	// 4. MariaDB GTID event --------------------------------------------------------
-	flags2 := []byte{0, 1, 2, 3, 4, 5, 8, 9, 12, 13, 16, 17, 32, 33, 6, 7, 0x3c, 0x3d, 0x3f, 0x3e}
+	// every value of the flags2 byte (FL_PREPARED_XA 0x40 and FL_COMPLETED_XA 0x80 of
+	// MariaDB >= 10.5 among them)
+	var flags2 []byte
+	for v := 0; v < 256; v++ {
+		flags2 = append(flags2, byte(v))
+	}
 	evDom := []uint32{0, 1, 2, 255, 256, 1<<31 - 1, 1 << 31, math.MaxUint32}
 	r.Parallel(func(shard, n int) {
 		var e int64
